@@ -641,6 +641,100 @@ def gen_name_prefixes(tier):
                     "name-prefix:mixed", "input")
 
 
+# ------------------------------------------------------------------------------------ model objects inside pickled values
+# inheritance scaffolds: (tag, lines, sub-space variable, [(target tag, expression, member tag, kind)])
+_F1 = 'formula="lambda x: x + 1"'
+_FK = 'formula="def k(x):\\n    return 2 * x"'
+PKLOBJ_SCAFFOLDS = [
+    ("single", ['B = m.new_space("B")', 'B.new_cells("f", %s)' % _F1, 'B.new_cells("k", %s)' % _FK, "B.x = 1",
+                'Sub = m.new_space("Sub", bases=B)', 'Sub.new_cells("own", formula="lambda x: 3 * x")'], "Sub",
+     [("derived-cells", "Sub.f", "derived", "cells"), ("derived-def-cells", "Sub.k", "derived", "cells"),
+      ("base-cells", "B.f", "defined", "cells"), ("own-cells", "Sub.own", "defined", "cells"),
+      ("sub-space", "Sub", "defined", "space"), ("base-space", "B", "defined", "space"),
+      ("derived+defined", "Sub.k, B.f, Sub", "derived", "cells")]),
+    ("multi", ['B1 = m.new_space("B1")', 'B1.new_cells("f", %s)' % _F1, 'B2 = m.new_space("B2")', 'B2.new_cells("k", %s)' % _FK,
+               'Sub = m.new_space("Sub", bases=[B1, B2])'], "Sub",
+     [("derived-from-1st", "Sub.f", "derived", "cells"), ("derived-from-2nd", "Sub.k", "derived", "cells"),
+      ("sub-space", "Sub", "defined", "space")]),
+    ("chain", ['B = m.new_space("B")', 'B.new_cells("f", %s)' % _F1, 'D = m.new_space("D", bases=B)', 'D.new_cells("k", %s)' % _FK,
+               'Sub = m.new_space("Sub", bases=D)'], "Sub",
+     [("derived-2-levels", "Sub.f", "derived", "cells"), ("derived-1-level", "Sub.k", "derived", "cells"),
+      ("derived-in-middle", "D.f", "derived", "cells")]),
+    ("nested", ['P = m.new_space("P")', 'B = P.new_space("B")', 'B.new_cells("f", %s)' % _F1, 'Sub = P.new_space("Sub", bases=B)'], "Sub",
+     [("derived-in-nested", "Sub.f", "derived", "cells"), ("nested-sub-space", "Sub", "defined", "space"),
+      ("base-cells", "B.f", "defined", "cells")]),
+    ("nested-deep", ['B = m.new_space("B")', 'B.new_cells("f", %s)' % _F1, 'Q = m.new_space("Q")', 'W = Q.new_space("W")',
+                     'Sub = W.new_space("Sub", bases=B)', 'K = Sub.new_space("K", bases=B)'], "Sub",
+     [("derived-at-depth-3", "Sub.f", "derived", "cells"), ("derived-at-depth-4", "K.f", "derived", "cells"),
+      ("deep-sub-space", "K", "defined", "space")]),
+]
+# (tag, template, accessor of the first held object from the name `items`)
+PKLOBJ_CONTAINERS = [("list", "[%s]", "items[0]"), ("tuple", "(%s, 1)", "items[0]"), ("dict", '{"f": (%s)}', None),
+                     ("nested", '{"a": [(%s, 2)], "b": None}', "items['a'][0][0]"), ("box", "Box([%s], 1)", "items.a[0]")]
+
+
+def gen_objects_in_pickles(tier):
+    """G11: model objects INSIDE pickled values (restored by path while the data is unpickled): containers held by a
+    reference, by a cells input value, or a cells input key, holding defined / DERIVED members of a sub space.
+    inheritance scaffold x held object x container x where held x holder (created before / after the target space,
+    the sub space itself, the base space, the model, an ItemSpace)."""
+    g = "objects-in-pickles"
+    for itag, scaffold, sub, targets in PKLOBJ_SCAFFOLDS:
+        base = scaffold[0].split(" = ")[0]
+        for ttag, texpr, member, kind in targets:
+            first = texpr.split(",")[0]
+            secondary = tier == "quick" and (itag != "single" or ttag not in ("derived-cells", "sub-space", "base-cells"))
+            common = ["value:container-of-objects", "inherit:" + itag, "member:" + member, "held:" + ttag, "held-kind:" + kind]
+            for order in ("holder-first", "holder-last"):
+                H = ['H = m.new_space("H")']
+                pre = M0 + (H + scaffold if order == "holder-first" else scaffold + H)
+                otag = "order:" + order
+                # -- held by a reference of another space
+                for ctag, tmpl, acc in PKLOBJ_CONTAINERS:
+                    if secondary and ctag not in ("list", "dict"):
+                        continue
+                    if ctag == "dict" and "," in texpr:
+                        val = "{%s}" % ", ".join('"k%d": %s' % (i, e.strip()) for i, e in enumerate(texpr.split(",")))
+                        acc = "items['k0']"
+                    else:
+                        val = tmpl % texpr
+                        acc = acc or "items['f']"
+                    lines = ["H.items = " + val]
+                    if kind == "cells":
+                        lines.append('H.new_cells("use", formula="lambda x: %s(x) + 100")' % acc)
+                    else:
+                        lines.append('H.new_cells("use", formula="lambda: %s.name")' % acc)
+                    yield case(g, (itag, ttag, "ref", ctag, order), [block(pre), block(lines, "held-in:ref", "container:" + ctag, otag, *common)])
+                # -- held by an input value / an input key
+                for ctag, tmpl, _ in PKLOBJ_CONTAINERS[:2] + PKLOBJ_CONTAINERS[3:4]:
+                    if secondary and ctag != "list":
+                        continue
+                    lines = ['c = H.new_cells("c", formula="lambda x: 1")', "c[1] = " + tmpl % texpr]
+                    yield case(g, (itag, ttag, "input-value", ctag, order),
+                               [block(pre), block(lines, "input", "held-in:input-value", "container:" + ctag, otag, *common)])
+                for ctag, key in (("direct", "%s, 1" % first), ("tuple", "(%s, 2), 1" % texpr)):
+                    if secondary and ctag != "direct":
+                        continue
+                    lines = ['c = H.new_cells("c", formula="lambda x, y: 1")', "c[%s] = 5" % key]
+                    yield case(g, (itag, ttag, "input-key", ctag, order),
+                               [block(pre), block(lines, "input", "held-in:input-key", "container:" + ctag, otag, *common)])
+            # -- other holders (list only): the sub space itself, its base (the reference is then derived too), the model,
+            #    an input inside an ItemSpace, a direct object next to the container
+            pre = M0 + scaffold
+            lst = "[%s]" % texpr
+            others = [("sub-space", ["%s.items = %s" % (sub, lst)], "held-in:ref"),
+                      ("base-space", ["%s.items = %s" % (base, lst)], "held-in:ref"),
+                      ("model", ["m.items = %s" % lst], "held-in:ref"),
+                      ("itemspace", ['H = m.new_space("H", formula="lambda i: None")', 'H.new_cells("c", formula="lambda x: i")',
+                                     "H[1].c[1] = %s" % lst], "held-in:input-value"),
+                      ("with-direct-ref", ['H = m.new_space("H")', "H.direct = %s" % first, "H.items = %s" % lst], "held-in:ref")]
+            for htag, lines, where in others:
+                if secondary and htag not in ("sub-space", "model"):
+                    continue
+                yield case(g, (itag, ttag, "holder", htag), [block(pre), block(lines, where, "container:list", "holder:" + htag,
+                                                                                *((("input", "itemspace-input") if htag == "itemspace" else ()) + tuple(common)))])
+
+
 KITCHEN = M0 + [
     'm.doc = "model doc"', "m.g1 = 1.5", 'm.g2 = {"a": (1, 2)}',
     'S = m.new_space("S")', 'S.doc = "space S"', 'C = S.new_space("C")', 'T = m.new_space("T", formula="lambda i, j=2: None")',
@@ -784,7 +878,7 @@ def report(res, key, lines, ctags, fails):
                  script=L.make_script(lines), case=key)
 
 
-GENERATORS = [gen_kitchen, gen_inheritance, gen_params, gen_model_level, gen_inputs, gen_name_prefixes, gen_docs_at, gen_cells_attrs,
+GENERATORS = [gen_kitchen, gen_inheritance, gen_params, gen_model_level, gen_inputs, gen_name_prefixes, gen_objects_in_pickles, gen_docs_at, gen_cells_attrs,
               gen_refs, gen_objref_matrix, gen_syntax]
 PRODUCT_GROUPS = {"cells-attrs", "refs", "objref-matrix", "syntax", "docs-at"}
 
@@ -800,6 +894,9 @@ def run(res, tier, seed):
                  "creation order, pickled inputs, 3-name chains, derived pairs with inputs in base / sub / overriding cells, ItemSpace "
                  "inputs; sibling spaces top/nested x content of each {empty, cells, inputs, child, prefixed children}; references "
                  "x value class of each {literal, pickled, object, container of objects} x holder; "
+                 "model objects inside pickled values: 5 inheritance scaffolds (single, multi, chain, nested, depth 3-4) x held object "
+                 "{derived / defined cells, sub / base space, mixed} x container {list, tuple, dict, nested, Box} x held in {reference, input "
+                 "value, input key, ItemSpace input} x holder {created before / after the target, the sub space, its base, the model}; "
                  "both containers, up to 7 reads and 6 writes per case (chains dir->dir, zip->zip, dir->zip, after evaluation; quick: second-generation reads only for the hand-written groups)"
                  + ("; plus seeded random combinations of 3-7 features" if tier == "thorough" else "; reduced products (quick)"))
     res.rule = ("one case = one recipe (scaffold + one feature block, or hand-written recipe) x evaluate-before-writing flag; a case is "
@@ -820,7 +917,7 @@ def run(res, tier, seed):
         for i in range(700):
             cases.append(random_case(res.rng, i))
     soft_deadline = res.budget_s * 0.8
-    nproc = max(2, min(12, (os.cpu_count() or 4) - 2))
+    nproc = int(os.environ.get("C04_NPROC", 0)) or max(2, min(12, (os.cpu_count() or 4) - 2))
     unbuildable = []
     done = 0
     res.exhaustive = True
